@@ -479,6 +479,14 @@ static void generate_minimal_hash(std::vector<std::string> str, Port_Matcher &pm
         return;
     }
     pm.assoc = find_assoc(str, pm.pos);
+    //the search for the association values is a heuristic: when it leaves two
+    //names with the same hash value, one of them could not be reached
+    auto hashed = do_hash(str, pm.pos, pm.assoc);
+    if(count_dups(hashed) != 0) {
+        fprintf(stderr, "rtosc: Failed to generate minimal hash\n");
+        pm.pos.clear();
+        return;
+    }
     pm.remap = find_remap(str, pm.pos, pm.assoc);
 }
 
